@@ -190,6 +190,10 @@ func (f *Fix) proofCtx(ctx sdk.Context, typ commontypes.RollappPacket_Type, pkt 
 			after = append(after, mk(t, 1))
 		}
 	}
+	// ... and an earlier message of the SAME kind for the same packet with another proof height: the decorator
+	// keeps one height per (kind, port, channel, sequence) and the last message of the transaction wins
+	// (CtxWithPacketProofHeight overwrites); the message of interest is the last of its kind
+	before = append(before, mk(typ, 1<<41))
 	msgs := append(append(before, mk(typ, proofHeight)), after...)
 	out, err := commontypes.NewIBCProofHeightDecorator().AnteHandle(ctx, pkTx{msgs}, false,
 		func(c sdk.Context, _ sdk.Tx, _ bool) (sdk.Context, error) { return c, nil })
